@@ -31,6 +31,16 @@ CLAIMS["C07"] = dict(
   text="For Registry::lookup*, Registry::canonicalize* and the loader's Resolver::lookup*, decided on the MIR of /repo's current tree: the prefix loop is reachable only through the failing edge of the exact lookup on the whole name, the plural retry only through the failing edge of the full prefixed lookup and only with a trailing 's' stripped, and an earlier stage's hit is returned unchanged; the prefix loops iterate the prefix table itself forwards with first-match-wins and the siblings agree on that policy (so canonicalising and evaluation split a name identically); the prefixed value multiplies the exact unit by the value paired with the matched prefix; Context::lookup consults ans and the (provably cleared) load-time temporaries before the registry; the registry's containers are ordered and no hash iteration/clock/env is reachable from resolution. This is the order and determinism content of the property for all names; that canonicalising preserves the value for each of the ~500k names is data-dependent and not claimed.",
   note="Trusted: the extractor's reading of today's loop idioms (a rewrite with iterator adaptors is reported, since first-match-wins can no longer be established); the driver; rustc's callee resolution.",
   design_ref="DESIGN.md section 4, C07")
+CLAIMS["C12"] = dict(
+  technique="type facts + def-use on MIR (work-list provenance) + dominance (writes after sort) + HIR match-table coverage + call-site uniqueness in the CLI + data lint",
+  text="Decides the order-forgetting structure that makes load results independent of definition order and file split: keyed ordered containers, visit() driven only by the ordered `unmarked` set, post-order emission behind unmarked/temp-mark tests, all registry writes dominated by the completed sort, dependency walk covering every expression position of every Def kind and every recursive Expr variant, one Context::load over the flattened file list in the CLI, no clock/env/hash iteration reachable from the loader, unique names per namespace in the bundled data. Equality of the resulting databases across permutations additionally needs every evaluation-time lookup to be a dependency the resolver saw; that semantic fact is approximated by the coverage rule, not proved.",
+  note="Trusted: driver, rustc resolution, the independent data-file reader (validated to produce the same 2748 entries as the Rust parser).",
+  design_ref="DESIGN.md section 4, C12")
+CLAIMS["C08"] = dict(
+  technique="who-may-call over the call graph (determinism) + CFG order rules on the resolver + independent data-file reader with reference/alias/quantity lints",
+  text="(a) no clock, environment, file system, thread, randomness or hash-iteration call is reachable from the loader roots and the loader's types contain no hash containers, so loading is a function of the text; (b) dependencies are emitted first (post-order, ordered work list, registry writes after the sort) and every evaluation error reaches the error list, Context::load returns Err iff the list is non-empty; (c) over definitions.units, currency.units and the currency snapshot: names unique per namespace, all 3700+ identifier references resolve exact->prefix->plural, 753 alias chains end at real definitions, quantities map injectively to dimensionalities over declared base units, categories are declared, hard-wired decomposition units exist. Not claimed: stored value == value of its definition text for each of the ~2900 entries (needs evaluation).",
+  note="Trusted: driver, the data-file reader/folder in /verif/unitsfile, the list of non-deterministic std/extern APIs in rules/loader_rules.py.",
+  design_ref="DESIGN.md section 4, C08")
 NA = {
  "C05": "digit strings, recurring-block offsets and the 1-ulp truncation bound are number-theoretic facts about runtime values of p/q and the base; no structural clause is a genuine necessary condition (DESIGN.md section 4, C05)",
 }
